@@ -18,6 +18,13 @@ const MAX_COMPONENT_RECURSION_DEPTH: usize = 20;
 /// rendering each other in a loop through inheritance get past this.
 const MAX_BLOCK_NESTING_DEPTH: usize = 40;
 
+/// Integer slice parameter. A u128 above i128::MAX is just as far out of range as i128::MAX is,
+/// like for indexing where it is simply out of bounds.
+fn slice_param(val: &Value) -> Option<i128> {
+    val.as_i128()
+        .or_else(|| val.is_u128().then_some(i128::MAX))
+}
+
 pub(crate) struct VirtualMachine<'tera> {
     tera: &'tera Tera,
     template: &'tera Template,
@@ -271,7 +278,7 @@ impl<'tera> VirtualMachine<'tera> {
                         } else if start.is_undefined() {
                             rendering_error!("Slice start is undefined".to_owned(), start_span)
                         } else {
-                            match start.as_i128() {
+                            match slice_param(&start) {
                                 Some(n) => Some(n),
                                 None => rendering_error!(
                                     format!(
@@ -287,7 +294,7 @@ impl<'tera> VirtualMachine<'tera> {
                         } else if end.is_undefined() {
                             rendering_error!("Slice end is undefined".to_owned(), end_span)
                         } else {
-                            match end.as_i128() {
+                            match slice_param(&end) {
                                 Some(n) => Some(n),
                                 None => rendering_error!(
                                     format!("Slice end must be an integer, got `{}`", end.name()),
@@ -300,7 +307,7 @@ impl<'tera> VirtualMachine<'tera> {
                         } else if step.is_undefined() {
                             rendering_error!("Slice step is undefined".to_owned(), step_span)
                         } else {
-                            match step.as_i128() {
+                            match slice_param(&step) {
                                 Some(n) => Some(n),
                                 None => rendering_error!(
                                     format!("Slice step must be an integer, got `{}`", step.name()),
